@@ -88,3 +88,29 @@ Theorem C18_statement_leaves_stack : forall O srcl pls lo sl,
   exists outs r2, vm_steps O r outs r2 /\ r_slen r2 = r_slen r.
 Proof. exact stmt_leaves_stack. Qed.
 Print Assumptions C18_statement_leaves_stack.
+
+(* ---- a completed built-in call leaves exactly its result (Proofs/CallWidth.v) ---- *)
+From BL Require Import Mach.Func Drv.Driver Proofs.CallWidth.
+
+(* whichever built-in is called: when the handler completes, the entries the call owns -- as many as the arity table the
+   code generator consults says, the count literal included when the arity is a range -- are gone, one result is in their
+   place, and everything beneath is what it was.  Nothing stays behind, nothing beneath is eaten. *)
+Theorem C18_builtin_replaces_its_arguments : forall O name r r',
+  WF r -> do_builtin O name r = (r', Ok None) ->
+  call_width name (r_stack r) <= lenN (r_stack r) /\ WF r'
+  /\ exists v, r_stack r' = v :: skipnN (call_width name (r_stack r)) (r_stack r).
+Proof. exact builtin_replaces_its_arguments. Qed.
+Print Assumptions C18_builtin_replaces_its_arguments.
+
+(* the entries a call owns are the ones its compiled code pushed: len argument values and, for a range of arities, the count *)
+Theorem C18_width_is_what_the_call_pushed : forall name lo hi len s,
+  builtin_arity name = Some (lo, hi) -> in_range (lo, hi) len = true ->
+  call_width name ((if lo =? hi then [] else [VInt (Z.of_N len)]) ++ s) = len + (if lo =? hi then 0 else 1).
+Proof. exact width_is_what_the_call_pushed. Qed.
+Print Assumptions C18_width_is_what_the_call_pushed.
+
+Example C18_pos_calls :
+  WF (pos_machine [VInt 1; VSng 0]) /\ WF (pos_machine [VInt 0])
+  /\ (let '(r', x) := do_builtin dummy_oracle pos_name (pos_machine [VInt 1; VSng 0]) in x = Ok None /\ r_stack r' = [VInt 0; VRet 5])
+  /\ (let '(r', x) := do_builtin dummy_oracle pos_name (pos_machine [VInt 0]) in x = Ok None /\ r_stack r' = [VInt 0; VRet 5]).
+Proof. exact pos_calls. Qed.
